@@ -123,8 +123,18 @@ impl Compiler {
                 _ => error,
             }
         })?;
-        serde_json::to_string(&story_document).map_err(|error| {
+        let story_json = serde_json::to_string(&story_document).map_err(|error| {
             CompilerError::invalid_source(format!("failed to serialize compiled ink: {error}"))
-        })
+        })?;
+        // Loading runs the global declarations (kept free of calls and diverts
+        // by the check above, so this ends): what the runtime cannot load is
+        // not a story.
+        if let Err(error) = bladeink::story::Story::new(&story_json) {
+            return Err(CompilerError::invalid_source(format!(
+                "the compiled story cannot be loaded: {error}"
+            ))
+            .with_file(source_name));
+        }
+        Ok(story_json)
     }
 }
